@@ -58,3 +58,5 @@ func vfFakeRaw(d *DataChannel) *datachannel.DataChannel { return d.dataChannel }
 func vfRemoteOpen(id uint16, label string) sctp.RemoteOpen {
 	return sctp.RemoteOpen{StreamID: id, Payload: datachannel.Config{ChannelType: datachannel.ChannelTypeReliable, Priority: datachannel.ChannelPriorityNormal, Label: label}}
 }
+
+func init() { vUseVNet = true }
